@@ -300,7 +300,8 @@ Section Calib.
     end.
   Definition sort_pairs (l : list (Param * LossV)) : list (Param * LossV) := fold_left (fun acc x => ins_pair x acc) l [].
 
-  Definition calibrate (n : nat) (s : cstate) : cstate * option exn * list (Param * LossV) :=
+  (* calibrate(n): reseeding at batch 0, the session, the batch loop, the sorted return value *)
+  Definition calibrate_pos (n : nat) (s : cstate) : cstate * option exn * list (Param * LossV) :=
     let c0 := live s in
     let c1 := if Nat.eqb (batch_idx c0) 0 then set_samplers_seeds c0 else c0 in
     match start_session (sch c1) with
@@ -320,6 +321,22 @@ Section Calib.
         end
       end
     end.
+
+  (* repair 32f0e7b: when no batch was requested the state is checkpointed all the same (the call may have reseeded the
+     samplers), so that the folder holds the state calibrate() returns with *)
+  Definition zero_ckpt (r : cstate * option exn * list (Param * LossV)) : cstate * option exn * list (Param * LossV) :=
+    let '(s', e, ret) := r in
+    match e with
+    | Some _ => r
+    | None => if c_saving (cfg (live s'))
+              then match save (live s') with
+                   | Some d => (mkSt (live s') (Some d), None, ret)
+                   | None => (s', Some ExOther, [])
+                   end
+              else r
+    end.
+  Definition calibrate (n : nat) (s : cstate) : cstate * option exn * list (Param * LossV) :=
+    match n with 0 => zero_ckpt (calibrate_pos 0 s) | S _ => calibrate_pos n s end.
 
   (* ---- other operations ---- *)
   Definition create_checkpoint (s : cstate) : cstate * option exn :=
